@@ -95,7 +95,9 @@ func parseRabinString(r io.Reader, chunker string) (Splitter, error) {
 		size, err := strconv.Atoi(parts[1])
 		if err != nil {
 			return nil, err
-		} else if int(float32(size)*1.5) > ChunkSizeLimit { // FIXME - this will be addressed in a subsequent PR
+		} else if size/3 < 16 { // NewRabin uses min = avg/3
+			return nil, ErrRabinMin
+		} else if size > ChunkSizeLimit || int(float32(size)*1.5) > ChunkSizeLimit { // FIXME - this will be addressed in a subsequent PR
 			return nil, ErrSizeMax
 		}
 		return NewRabin(r, uint64(size)), nil
